@@ -3,6 +3,7 @@
 package secretstore
 
 import (
+	"bytes"
 	"context"
 	"fmt"
 	"strings"
@@ -102,5 +103,42 @@ func TestVerif_C09_TransientReadFailure(t *testing.T) {
 			rt.Fatalf("C09 read-fault/%s: %s (%v)", id, msg, desc)
 		}
 		acct.Case(fired > 0 || givenUp, fmt.Sprintf("rf|%d|%d|%s|%d|%d|%d", kind, pre, call, failFrom, failCount, len(sent)), func() any { return desc }, "read-fault", lbl(fired > 0, "read-fault/fired"), lbl(fired > 0 && call == "share", "read-fault/fired-while-sharing-the-key"), lbl(givenUp, "read-fault/caller-gave-up-during-a-send"))
+	})
+}
+
+// "each message key/nonce pair protects at most one payload" across devices: two devices of a group seal the same
+// payloads under the same counters; were their key streams the same, the sealed payloads would be byte-identical.
+func TestVerif_C09_DevicesDoNotShareKeyStreams(t *testing.T) {
+	acct := vacct.Get("C09")
+	vacct.RapidCheck(t, vacct.N(30, 3000), func(rt *rapid.T) {
+		kind := rapid.SampledFrom([]int{vKindMulti, vKindAccount, vKindContact}).Draw(rt, "kind")
+		w := c09NewWorld([]int{kind}, 0)
+		g := w.groups[0]
+		n := rapid.IntRange(1, 4).Draw(rt, "n")
+		size := rapid.SampledFrom([]int{0, 1, 17, 300}).Draw(rt, "size")
+		for i := 0; i < n; i++ {
+			p := vWrap(bytes.Repeat([]byte{byte(i + 1)}, size))
+			var boxes [][]byte
+			var ctrs []uint64
+			for _, d := range []*vDev{w.S, w.R} {
+				envBytes, err := d.s.SealEnvelope(vctx, g, p)
+				if err != nil {
+					rt.Fatalf("harness: %v", err)
+				}
+				env, hdr, err := d.s.OpenEnvelopeHeaders(envBytes, g)
+				if err != nil {
+					rt.Fatalf("harness: %v", err)
+				}
+				boxes, ctrs = append(boxes, env.Message), append(ctrs, hdr.Counter)
+			}
+			if ctrs[0] == ctrs[1] && bytes.Equal(boxes[0], boxes[1]) {
+				desc := map[string]any{"kind": vKindNames[kind], "counter": ctrs[0], "payload_bytes": len(p)}
+				acct.Violation("key-stream-shared-across-devices", "TestVerif_C09_DevicesDoNotShareKeyStreams", desc)
+				rt.Fatalf("C09 key-stream-shared-across-devices: two devices of the group sealed the same payload under counter %d to identical bytes: they use the same message key and nonce (%v)", ctrs[0], desc)
+			}
+		}
+		acct.Case(true, fmt.Sprintf("ks|%d|%d|%d", kind, n, size), func() any {
+			return map[string]any{"kind": "two-devices-same-counters", "group": vKindNames[kind], "messages_each": n, "payload_bytes": size}
+		}, "two-devices-same-counters")
 	})
 }
